@@ -652,6 +652,14 @@ Definition receiveDecoded (now : N) (ver stag rtag : N) (body : ebody) (aux : N)
             else LET r <- processAKE now ty None aux IN ret (None, fst r, snd r)
         end.
 
+(* forgetVersionUnlessKeyExchangeStarted: a version committed while looking at a message that was rejected or
+   ignored is forgotten again; [before] is the version at entry *)
+Definition forgetVersion (before : N) (err : N) : M unit :=
+  LET c <- get IN
+  if negb (before =? 0) || (c_msgState c =? c_encrypted) then ret tt
+  else if negb (err =? 0) || (match c_ake c with Some a => a_state a =? 0 | None => true end)
+  then modify (fun c => c <| c_version := 0 |>) else ret tt.
+
 Definition finish (plain : option bytes) (out : list wire) (err : N) : M result :=
   (* toSendEncoded drops the output when there is an error; injections are always flushed *)
   LET out' <- withInjects (if err =? 0 then out else []) IN
@@ -685,14 +693,17 @@ Definition receive (now : N) (w : wire) (aux : N) (rnd : list N) : M result :=
     | WUnknown => event c_MessageEventReceivedMessageUnrecognized ;;; finish None [] 0
     | WUndecodable => finish None [] 1
     | WShort ver =>
+        LET c0 <- get IN
         LET e <- commitToVersionFrom (2 ^ ver) IN
-        if negb (e =? 0) then finish None [] 1
+        if negb (e =? 0) then forgetVersion (c_version c0) 1 ;;; finish None [] 1
         else LET c <- get IN
              if negb (c_version c =? ver) then finish None [] 1
-             else (if ver =? 3 then malformedMessage else ret tt) ;;; finish None [] 1
+             else (if ver =? 3 then malformedMessage else ret tt) ;;; forgetVersion (c_version c0) 1 ;;; finish None [] 1
     | WEnc ver stag rtag body =>
+        LET c0 <- get IN
         LET r <- receiveDecoded now ver stag rtag body aux rnd IN
-        let '(plain, out, err) := r in finish plain out err
+        let '(plain, out, err) := r in
+        forgetVersion (c_version c0) err ;;; finish plain out err
     end.
 
 (* ---------------- Send (send.go) ---------------- *)
